@@ -480,6 +480,12 @@ impl Exp {
                     rendered
                 }
             }
+            // the dedicated logic nodes print their operator without
+            // parentheses of their own: `(b and d) + x` must not become
+            // `b and d + x`, which reads as `b and (d + x)`
+            Exp::And(_) | Exp::Or(_) | Exp::Xor(_, _) | Exp::Implies(_, _) | Exp::Iff(_, _) => {
+                format!("({})", self)
+            }
             _ => self.to_string(),
         }
     }
